@@ -82,12 +82,17 @@ def orderCheck (c : JCase) : List String × List (String × String) :=
     | none => ([], (g, tasks) :: c.groups)
   | _, _ => ([], c.groups)
 
+/-- keep verdict lines readable: long tokens (whole task sets, megabyte values) are cut -/
+def briefWords (s : String) : String :=
+  " ".intercalate ((s.splitOn " ").map fun w =>
+    if w.length > 400 then (w.take 160).toString ++ s!"…<{w.length} chars, fnv={fnv1a w.toUTF8}>" else w)
+
 def flushCase (c : JCase) : List String :=
   if !c.active then []
   else
     match judgeCase c ++ (orderCheck c).1 with
     | [] => [s!"judge {c.hdr} :: ok"]
-    | fs => fs.map fun f => s!"judge {c.hdr} :: FAIL {shorten f}"
+    | fs => fs.map fun f => s!"judge {c.hdr} :: FAIL {briefWords f}"
 
 /-- extract the JSON payload of an `av <p> <json> -> …` line -/
 def avPayload (line : String) : Option String :=
